@@ -702,7 +702,10 @@ def install(w):
         use("user callbacks (on_error, ...) are havocked: any result or any Exception (A5)")
         it.ghost_bump(spec[1])
         if it.choose(2, "callback outcome") == 1:
-            raise _Raise(VExc(Exception, origin=f"callback {f.name}", okind="RAISES", exact=False,
+            # ("callback", ghost, Class): a callback that raises only Class (the caller's side of this
+            # restriction is a RELY-RAISES obligation on the closure it passes)
+            cls = w.resolve_class(spec[2]) if len(spec) > 2 else Exception
+            raise _Raise(VExc(cls, origin=f"callback {f.name}", okind="RAISES", exact=False,
                               lineno=getattr(node, "lineno", 0)))
         return VOpaque("callback_result")
     B["callback"] = b_callback
